@@ -74,4 +74,50 @@ theorem hypsS : ∃ hdr, encHeader cfgS s0S = .ok hdr ∧ s0S.ops = [] ∧ s0S.e
   | oob => rw [h] at hok; cases hok
   | abort => rw [h] at hok; cases hok
 
+/-! a VBR frame with the post-filter on: 60 bytes offered, shrunk to 40 behind the header (5 ms, mono) -/
+
+def cfgV : EncCfg := { start := 0, end_ := 13, C := 1, LM := 1, vbr := true, lfe := false, size := 60 }
+def dsV : List Int := [0, 1, 2, 5, 3, 1, 0, 0, 1, 2, -1, 0, 0, 1, 0, -2, 0, 0, 1, 0, 0,
+   0,0,0,0,0,0,0,0,0,0,0,0,0, 0, 2,  0,0,0,0,0,0,0,0,0,0,0,0,0,  5,  40,  13, 0, 0, 13]
+def s0V : St := { e := encInit (List.replicate 60 0) 60, ops := [], ds := dsV }
+def allV : List Op := match encHeader cfgV s0V with | .ok h => h.ops | _ => []
+
+def worldV : World :=
+  { buf := List.replicate 60 0, size := 60, all := allV, hs := by decide, hb := by decide +kernel, hl := by decide +kernel,
+    hn := by decide +kernel, herr := by decide +kernel, hn29 := by decide +kernel }
+
+/-- every hypothesis of `header_roundtrip` holds for this frame — with the post-filter on (`htap` has a true premise)
+    and the final length below the budgeted size (the VBR arm of `hmargin`) -/
+theorem hypsV : ∃ hdr, encHeader cfgV s0V = .ok hdr ∧ s0V.ops = [] ∧ s0V.e = worldV.encAt [] ∧ s0V.e.storage = cfgV.size ∧
+    hdr.silence = 0 ∧ worldV.IsPrefix ([] ++ hdr.ops) ∧
+    (cfgV.start < cfgV.end_ ∧ cfgV.end_ ≤ 21 ∧ (cfgV.C = 1 ∨ cfgV.C = 2) ∧ cfgV.LM ≤ 3) ∧ cfgV.size ≤ 1275 ∧
+    worldV.len = hdr.size ∧ worldV.len ≠ cfgV.size ∧
+    (tell (worldV.encAt ([] ++ hdr.opsHdr)) + 16 ≤ ((worldV.len * 8 : Nat) : Int) ∧
+      (tellFrac (worldV.encAt ([] ++ hdr.opsHdr)) : Int) + hdr.totalBoost + 48 < ((worldV.len * 8 * 8 : Nat) : Int)) ∧
+    tell s0V.e < ((worldV.len * 8 : Nat) : Int) ∧ hdr.pf.on ≠ 0 ∧
+    tell (worldV.encAt ([] ++ hdr.opsPf.dropLast)) + 2 ≤ ((worldV.len * 8 : Nat) : Int) ∧
+    (cfgV.start : Int) ≤ hdr.allocInp.intensity ∧ hdr.allocInp.dualStereo = 0 ∧ hdr.size = 40 ∧ hdr.pf.tapset = 1 := by
+  have hok : (match encHeader cfgV s0V with | .ok _ => true | _ => false) = true := by decide +kernel
+  cases h : encHeader cfgV s0V with
+  | ok hdr =>
+    have hall : allV = hdr.ops := by unfold allV; rw [h]
+    have hlen : worldV.len = 40 := by decide +kernel
+    have f1 : (match encHeader cfgV s0V with
+        | .ok h => decide (h.silence = 0 ∧ h.size = 40 ∧ h.pf.on ≠ 0 ∧ h.pf.tapset = 1 ∧
+            (cfgV.start : Int) ≤ h.allocInp.intensity ∧ h.allocInp.dualStereo = 0 ∧
+            tell (worldV.encAt ([] ++ h.opsHdr)) + 16 ≤ 320 ∧
+            (tellFrac (worldV.encAt ([] ++ h.opsHdr)) : Int) + h.totalBoost + 48 < 2560 ∧
+            tell (worldV.encAt ([] ++ h.opsPf.dropLast)) + 2 ≤ 320)
+        | _ => false) = true := by decide +kernel
+    rw [h] at f1
+    have f1 := of_decide_eq_true f1
+    refine ⟨hdr, rfl, rfl, rfl, rfl, f1.1, ⟨[], by rw [List.nil_append, List.append_nil]; exact hall⟩,
+      by decide, by decide, by rw [hlen, f1.2.1], by rw [hlen]; decide, ?_, by rw [hlen]; decide +kernel, f1.2.2.1, ?_,
+      f1.2.2.2.2.1, f1.2.2.2.2.2.1, f1.2.1, f1.2.2.2.1⟩
+    · rw [hlen]; exact ⟨f1.2.2.2.2.2.2.1, f1.2.2.2.2.2.2.2.1⟩
+    · rw [hlen]; exact f1.2.2.2.2.2.2.2.2
+  | err e => rw [h] at hok; cases hok
+  | oob => rw [h] at hok; cases hok
+  | abort => rw [h] at hok; cases hok
+
 end OpusProofs.CeltHdr.Example
